@@ -1333,6 +1333,15 @@ func c13GC(c *vf.Case, ioc *sonic.IO) {
 					return
 				}
 				_ = t.ScheduleOnce(3*time.Millisecond, func() { completed++; gotN = 10; _ = sentinel.pad[0]; _ = t.Close() })
+				if r.Bool() {
+					// a second schedule is refused (the timer holds one): the refusal must not cost the pending schedule
+					// whatever keeps its timer alive
+					if err := t.ScheduleOnce(time.Hour, func() {}); err == nil {
+						c.Failf("harness-setup", "a second schedule on a scheduled timer was accepted")
+						return
+					}
+					c.Count("gc_probes_timer_with_a_refused_second_schedule", 1)
+				}
 				trigger = func() { time.Sleep(4 * time.Millisecond) }
 			}
 		}()
